@@ -349,7 +349,7 @@ func (w *worker) runPath(prog *ssa.Program, fn *ssa.Function, cfg *JobCfg, item 
 			mapOrd = true
 		}
 	}
-	forced := !e.env.shortWriteUsed && !e.env.randUsed && !cfg.PoolAny
+	forced := !e.env.shortWriteUsed && !e.env.randUsed && !cfg.PoolAny && !e.env.modelOnly
 	mkW := func(model map[string]uint64, expect, det, known string) *Witness {
 		m := NewModel(model)
 		wt := &Witness{Job: cfg.Name, Pkg: cfg.Pkg, Func: cfg.Func, Params: cfg.Params, Expect: expect, Detail: det, Known: known, Forced: forced, MapOrd: mapOrd}
